@@ -179,7 +179,7 @@ UNITS["group"] = {
             {"kind": "type", "name": "KeyspaceMap"},
             {"kind": "struct", "name": "KeyspaceGroup"},
             {"kind": "impl_fns", "name": "KeyspaceGroup", "header": r"impl<S> KeyspaceGroup<S>\s+where\s+S: Storage,\s*\{\s*/// Creates a new",
-             "fns": ["get_or_create_keyspace", "load_states_from_storage", "load_states", "add_state"]},
+             "fns": ["get_or_create_keyspace", "load_states", "add_state"]},
         ],
         "append": ['#[cfg(kani)] #[path = "/verif/harness/group/src/contracts.rs"] mod verif_contracts;'],
     }, {
@@ -212,6 +212,7 @@ UNITS["membership"] = {
     "crate": "harness/membership",
     "harness_mod": "watch::verif_contracts",
     "kani_flags": [],
+    "env": {"VCOLL_CAP": "2", "VCOLL_VCAP": "2"},
     "sources": ["datacake-node/src/lib.rs", "datacake-node/src/node.rs"],
     "slice": [
         {"mode": "items", "src": "datacake-node/src/node.rs", "out": "node_types.rs",
@@ -227,8 +228,46 @@ UNITS["membership"] = {
     "functions": ["watch_membership_changes"],
     "assumptions": [
         "snapshot stream, latest-value delta channel, RpcNetwork, NodeSelectorHandle, statistics are recording stand-ins; tracing macros are no-ops",
-        "this unit links the REAL std BTreeMap/BTreeSet/Vec/String: every harness fixes presence and addresses concretely, so CBMC executes the std code by constant propagation "
-        "(with the vcoll stand-ins the composite function exceeded 24 GB); the price is that each harness is one concrete presence/address transition (81 of them), only data centres are symbolic",
+        "BTreeMap/BTreeSet/Vec -> vcoll concrete collections (capacity 2); BTreeSet<(NodeId, SocketAddr)> keys are identified by (id, IPv4, port) packed in 56 bits (vcoll::VKey)",
+        "data-centre names are OPAQUE identifiers: `String` -> env::DcName, `Cow<'static, str>` -> env::DcCow (64-bit order-preserving identity); heap Strings made CBMC run out of memory; "
+        "the function only clones, wraps (Cow::Owned) and uses names as map keys",
+    ],
+    "timeout_quick": 1500,
+}
+
+UNITS["selector"] = {
+    "kind": "kani",
+    "crate": "harness/selector",
+    "harness_mod": "selector::verif_contracts",
+    "kani_flags": [],
+    "env": {"VCOLL_CAP": "2", "VCOLL_VCAP": "4"},
+    "sources": ["datacake-node/src/nodes_selector.rs"],
+    "slice": [{
+        "mode": "items", "src": "datacake-node/src/nodes_selector.rs", "out": "selector.rs",
+        "prelude": "/verif/harness/selector/src/prelude.rs",
+        "drop_attrs": ["instrument"],
+        "items": [
+            {"kind": "type", "name": "Nodes"},
+            {"kind": "enum", "name": "ConsistencyError"},
+            {"kind": "enum", "name": "Consistency"},
+            {"kind": "trait", "name": "NodeSelector"},
+            {"kind": "struct", "name": "DCAwareSelector"},
+            {"kind": "impl", "name": "NodeSelector for DCAwareSelector", "header": r"impl NodeSelector for DCAwareSelector\s*\{"},
+            {"kind": "fn", "name": "select_n_nodes"},
+            {"kind": "struct", "name": "NodeCycler"},
+            {"kind": "impl", "name": "NodeCycler", "header": r"impl NodeCycler\s*\{"},
+            {"kind": "impl", "name": "From<Nodes> for NodeCycler", "header": r"impl From<Nodes> for NodeCycler\s*\{"},
+            {"kind": "impl", "name": "Iterator for NodeCycler", "header": r"impl Iterator for NodeCycler\s*\{"},
+        ],
+        "append": ['#[cfg(kani)] #[path = "/verif/harness/selector/src/contracts.rs"] mod verif_contracts;'],
+    }],
+    "extraction": "items Nodes, ConsistencyError, Consistency, NodeSelector, DCAwareSelector (+ impl NodeSelector), select_n_nodes, NodeCycler (+ impls) cut verbatim from nodes_selector.rs; "
+                  "dropped attribute: #[instrument(..)] on select_n_nodes",
+    "functions": ["DCAwareSelector::select_nodes", "select_n_nodes", "NodeCycler::next", "NodeCycler::from"],
+    "assumptions": [
+        "rand::thread_rng / IteratorRandom::choose_multiple -> an ARBITRARY sub-selection of the requested size in iteration order (which elements are chosen is nondeterministic; their relative order is not permuted)",
+        "SmallVec<[SocketAddr; 5]> / Vec -> vcoll::VVec; BTreeMap -> vcoll concrete map; SocketAddr -> opaque identifier; data-centre names are real Cow::Borrowed(&'static str) (no heap strings); tracing macros are no-ops",
+        "layout precondition (what watch_membership_changes installs): every listed data centre is non-empty, addresses are pairwise distinct, the local node is a member of its own data centre, total_nodes is the sum",
     ],
     "timeout_quick": 1200,
 }
@@ -285,7 +324,10 @@ UNITS["group_caller"]["harness_mod"] = "group_caller::verif_contracts"
 UNITS["group_caller"]["gen_unit"] = "group"
 UNITS["group_caller"]["env"] = {"VCOLL_CAP": "3", "VCOLL_VCAP": "3"}
 UNITS["group_caller"]["assumptions"] = UNITS["group"]["assumptions"] + [
-    "the caller unit links the REAL std BTreeMap/Vec/String: keyspace names (the only map keys) and all counts are concrete per harness, row contents symbolic; "
+    "caller unit: keyspace names are OPAQUE identifiers -- `String` -> env::KsName and `Cow<'static, str>` -> env::KsCow (64-bit order-preserving identity); measured reason: heap "
+    "Strings (allocation, memcpy, memcmp, Cow::clone) made CBMC's propositional reduction run out of memory; the function only moves, wraps (Cow::Owned) and compares names",
+    "caller unit: `Vec` -> vcoll::VVec (stable insertion sort for slice::sort_by_key; the std smallsort over raw pointers dominated symbolic execution), BTreeMap -> vcoll concrete map; "
+    "counts (keyspaces, rows) concrete per harness, row contents (ids, stamps, tombstone flags) symbolic",
     "load_states is a contract stub recording what it is handed (its body: gr_load_states)"]
 UNITS["group_caller"]["functions"] = ["KeyspaceGroup::load_states_from_storage"]
 
@@ -298,6 +340,7 @@ UNITS["orswot_b"].update({
     "functions": ["OrSWotSet::diff", "OrSWotSet::purge_old_deletes", "OrSWotSet::add_raw_tombstones", "OrSWotSet::merge", "NodeVersions::merge"],
     "timeout_quick": 1200, "timeout_thorough": 2400,
     "env": {"VCOLL_CAP": "4"},
+    "kani_flags": ["-Z", "stubbing"],
 })
 UNITS["orswot_b"]["slice"][0].update({
     "prepend": ["use vcoll::vvec::VVec as Vec;",
@@ -308,6 +351,21 @@ UNITS["orswot_b"]["assumptions"] = UNITS["orswot"]["assumptions"] + [
     "vcoll::VVec (fixed capacity 8, stable insertion sort) stands in for Vec / slice::sort_by_key",
     "concrete vcoll maps iterate BTreeMap in key order and HashMap in insertion order (one of the orders std may produce)",
 ]
+
+# merge (C03): same generated copy and crate as orswot_b, built with capacities matched to the bound of each harness
+# (the unwinding bound and the formula size grow with the capacities: B=1 per side at CAP 4 / VCAP 8 gave 9.8 M variables, at CAP 2 / VCAP 2 3.2 M)
+for _u, _cap, _vcap in (("orswot_m1", "2", "2"), ("orswot_m2", "4", "4")):
+    UNITS[_u] = copy.deepcopy(UNITS["orswot_b"])
+    UNITS[_u]["gen_unit"] = "orswot_b"
+    UNITS[_u]["env"] = {"VCOLL_CAP": _cap, "VCOLL_VCAP": _vcap}
+    UNITS[_u]["functions"] = ["OrSWotSet::merge", "NodeVersions::merge"]
+    UNITS[_u]["timeout_quick"] = 1500
+    UNITS[_u]["timeout_thorough"] = 3000
+    UNITS[_u]["assumptions"] = UNITS["orswot_b"]["assumptions"] + [
+        "modular: inside OrSWotSet::merge the callee NodeVersions::merge is replaced (#[kani::stub]) by its contract stub -- called exactly once, reaches only the version vectors (frame by typing: "
+        "it is handed &mut self.versions); the callee's own contract is obligation os_versions_merge",
+        "both replicas: entries/tombstone maps concrete with the stated number of keys (they are iterated), cut-off maps ARBITRARY (havoc: any origins, any values)",
+    ]
 
 # --------------------------------------------------------------------------- obligations
 # name -> dict(unit, harness|file, cls, bound, tier, fn, stmt)
@@ -389,6 +447,15 @@ _k("os_purge_all", "orswot_b", "B", "OrSWotSet::purge_old_deletes",
 _k("os_raw_tombstones", "orswot_b", "B", "OrSWotSet::add_raw_tombstones",
    "<= 2 items: exactly the listed keys become tombstones at the listed stamps; everything else untouched", bound="list <= 2")
 
+# ---- merge (C03)
+_MG = ("for every key in play slot'(k) == k_merge(slot_S(k), slot_O(k), S's live stamp before O's cut-off, O's tombstone before S's cut-off); no other key appears; live and dead stay "
+       "disjoint; NodeVersions::merge called exactly once (contract stub); stamps distinct unless both sides hold the same operation; cut-offs of both sides arbitrary")
+_k("os_merge_slots_1", "orswot_m1", "B", "OrSWotSet::merge", "S and O with <= 1 key each (live or tombstoned, possibly the same key): " + _MG, bound="<= 1 key per side")
+_k("os_merge_slots_2", "orswot_m2", "B", "OrSWotSet::merge", "S and O with <= 2 keys each: " + _MG, bound="<= 2 keys per side", tier="thorough")
+_k("os_versions_merge", "orswot_m2", "B", "NodeVersions::merge",
+   "self ARBITRARY (havoc maps), other with <= 1 origin per source: newest stamps become the pointwise maximum; for every origin the peer mentions the cut-off is recomputed as "
+   "cut(min over sources); origins not mentioned and a bystander origin untouched", bound="other: <= 1 origin per source")
+
 # ---- unit rpc_registry (class B: inductive step within 3 services x 2 keys over 4 URIs)
 _RB = "4 URIs, 3 services, <= 2 keys per service; arbitrary start state satisfying the registry invariant"
 _k("reg_lookup", "rpc_registry", "B", "ServerState::get_handler",
@@ -439,14 +506,10 @@ _k("gr_binding_preserved", "group", "P", "KeyspaceGroup::get_or_create_keyspace 
    "arbitrary group map, environment steps at both former await points: result == map'[name]; a binding once set (before the call or by another task in the window) is never replaced")
 
 # ---- unit membership
-_MB = ("two consecutive snapshots over ids {self,1,2}; each other node is absent / at address A / at address B in each snapshot (concrete per harness: all 81 "
-       "transitions are registered), data centres symbolic: joined/left exact (left as members of the PREVIOUS snapshot with the address they had); consumer fold == "
-       "others(cur); departed addresses disconnected; set_nodes gets exactly cur's DC layout")
-_MB_ALL = [f"mb_delta_{p1}{p2}_{c1}{c2}" for p1 in range(3) for p2 in range(3) for c1 in range(3) for c2 in range(3)]
-_MB_QUICK = {"mb_delta_10_00", "mb_delta_00_10", "mb_delta_10_20", "mb_delta_12_21", "mb_delta_11_01", "mb_delta_01_11", "mb_delta_10_01", "mb_delta_11_11"}
-for _n in _MB_ALL:
-    _k(_n, "membership", "B", "watch_membership_changes", f"transition {_n[9:]}: " + _MB,
-       bound="3 ids x {absent, addr A, addr B} x 2 DCs, one transition per harness", tier="quick" if _n in _MB_QUICK else "thorough")
+_k("mb_delta_step", "membership", "B", "watch_membership_changes",
+   "two consecutive snapshots over ids {self,1} (first arbitrary => inductive step), each id absent/present, 2 addresses, 2 DCs, all symbolic: joined/left exact (left as members of the PREVIOUS "
+   "snapshot with the address they had); consumer fold == others(cur); departed addresses disconnected; set_nodes gets exactly cur's DC layout",
+   bound="2 snapshots x 2 ids (self + one other node) x 2 addresses x 2 DCs (three ids: 22 M SAT variables, out of memory at 24 GB)")
 
 # ---- unit clock
 _k("ck_two_events", "clock", "P", "run_clock",
@@ -473,6 +536,10 @@ _v("lemmas_repair", "lemmas/repair.rs", "lemma layer over sk_lacks / sk_insert /
 _v("lemmas_purge", "lemmas/purge.rs", "lemma layer over sk_before / sk_will_apply / sk_insert / sk_delete",
    "purged tombstone (d < L): every op from that origin with t <= d is refused now and under any later (larger) cut-off; purging is invisible: "
    "decision and live part identical with and without the tombstone for ANY later op; simulation step preserved under growing cut-off", 13)
+
+_v("lemmas_merge", "lemmas/merge_laws.rs", "lemma layer over sk_merge",
+   "sk_merge with both cut-off flags false == join (greatest stamp wins, insert wins a tie) == max under an injective rank: idempotent, commutative, associative, absorbing, per key and "
+   "lifted pointwise to whole replicas; folding any sequence of states depends only on the SET folded in (any order, any repetition); window hypothesis => flags false", 29)
 
 _v("lemmas_membership", "lemmas/membership.rs", "lemma layer over membership maps (id -> address)",
    "apply(a, delta(a,b)) == b for ANY a, b; a consumer applying every event holds the last snapshot (induction over the history); holds for any subsequence "
@@ -515,6 +582,34 @@ PROPERTIES = {
         "obligations": ["ac_on_set", "ac_on_del", "ab_on_multi_set", "ab_on_multi_del", "lemmas_bulk", "ac_on_purge",
                         "os_will_apply", "os_insert_contract", "os_delete_contract", "os_purge_all", "os_raw_tombstones"],
         "level": "proof", "explanation": "", "assumptions": [],
+    },
+    "C03": {
+        "obligations": ["os_merge_slots_1", "os_merge_slots_2", "os_versions_merge", "os_before", "lemmas_merge"],
+        "level": "other",
+        "explanation": "bounded contract checking (class B) of the real OrSWotSet::merge per key (<= 1 key per side quick, <= 2 thorough; cut-offs of both sides arbitrary) against the "
+                       "five-case merge kernel, with NodeVersions::merge linked by contract and checked separately; the algebra is PROVED (Verus, unbounded): under the window hypothesis the "
+                       "kernel is the join of a semilattice, so any order, grouping and repetition of merges gives the same slot for every key",
+        "assumptions": ["decided under the property's hypothesis 'all timestamps lie within one forgiveness period' (then no cut-off flag of the merge kernel can be set: lemma_window_no_before); "
+                        "the alternative hypothesis (gap-free prefixes of every origin's operations, where the cut-off flags may be set) needs ghost history and is NOT decided"],
+    },
+    "C07": {
+        "obligations": ["gr_load_1x2", "gr_load_2x1", "gr_load_2x2", "gr_load_1x1", "gr_load_0", "gr_load_fail_list", "gr_load_fail_rows", "gr_load_states",
+                        "os_insert_contract", "os_delete_contract", "lemmas_restart"],
+        "level": "other",
+        "explanation": "bounded contract checking (class B) of KeyspaceGroup::load_states_from_storage and load_states: for <= 2 keyspaces x <= 2 metadata rows (counts concrete, "
+                       "ids/stamps/tombstone flags symbolic, stamps may coincide) every stored row is replayed exactly once, in timestamp order, through source 0, into the state handed "
+                       "to that keyspace's actor, and nothing else is; the unbounded part is proved: what a replayed operation does to a real set (os_insert_contract / os_delete_contract, "
+                       "class P) and the Verus induction that replaying any number of rows with distinct ids through source 0 leaves exactly the rows (lemmas_restart)",
+        "assumptions": ["'acknowledged => in storage' is C02's Ok postcondition; 'converges with its peers as in C01' is not decided (C01 not applicable)",
+                        "crash points: the rebuilt state is a function of storage alone (the contract quantifies over every storage content), so the in-memory state at the crash is irrelevant"],
+    },
+    "C16": {
+        "obligations": ["mb_delta_step", "lemmas_membership"],
+        "level": "other",
+        "explanation": "bounded contract checking (class B): the delta function of watch_membership_changes for one transition from an ARBITRARY previous snapshot "
+                       "(self + one other node x 2 addresses x 2 data centres, all symbolic -- an inductive step over snapshot histories inside that size) plus the unbounded Verus fold lemma "
+                       "(a consumer applying every event holds the last snapshot)",
+        "assumptions": [],
     },
     "C18": {
         "obligations": ["gr_binding_preserved"],
